@@ -664,13 +664,12 @@ class BoundStatement(Statement):
         if self._routing_key is not None:
             return self._routing_key
 
+        # computed from the currently bound values each time: caching it in _routing_key made a
+        # re-bound statement keep the routing key of its previous values
         routing_indexes = self.prepared_statement.routing_key_indexes
         if len(routing_indexes) == 1:
-            self._routing_key = self.values[routing_indexes[0]]
-        else:
-            self._routing_key = b"".join(self._key_parts_packed(self.values[i] for i in routing_indexes))
-
-        return self._routing_key
+            return self.values[routing_indexes[0]]
+        return b"".join(self._key_parts_packed(self.values[i] for i in routing_indexes))
 
     def __str__(self):
         consistency = ConsistencyLevel.value_to_name.get(self.consistency_level, 'Not Set')
